@@ -488,9 +488,21 @@ func reorderTrigger(ops []cop) bool {
 
 // checkSeq runs every oracle on one sequence. Returns a difference ("" = held) and whether
 // the difference, if any, is attributable to the known reorder finding.
+// reusedBuf is written, Reset and written again by every sequence: a re-used buffer (the page
+// pool and the per-block snapshot buffer of the library do exactly that) must behave like a fresh one.
+var reusedBuf = commit.NewBuffer(64)
+
 func checkSeq(ops []cop, deep bool) (diff string, kf bool) {
 	b := build("col", ops)
 	if s := readAll("fresh", b, ops, false, false); s != "" {
+		return s, false
+	}
+	reusedBuf.PutUint32(commit.Put, 3*16384+777, 42) // leaves a non-zero last offset and a block header behind
+	reusedBuf.Reset("col")
+	for _, c := range ops {
+		writeOp(reusedBuf, c)
+	}
+	if s := readAll("reused-after-Reset", reusedBuf, ops, false, false); s != "" {
 		return s, false
 	}
 	if s := typedCheck(b, ops); s != "" {
